@@ -55,7 +55,9 @@ Check == inst # <<>> =>
       \* every legal spelling of an integer literal: leading zeros are decimal,
       \* never octal; -0 is 0 (once per run, on a 12-element array / string)
       doc12 == DocOf(12, inst.str)
-      sp == << <<48,49,48>>, <<48,56>>, <<48,48,55>>, <<45,48,49,48>>, <<48,49,49>>, <<48,48>>, <<45,48>>, <<48,48,49,50>>, <<48,48,48,48,48,48,48,49,48>>, <<45,48,57>>, <<48,49>> >>
+      sp == << <<48,49,48>>, <<48,56>>, <<48,48,55>>, <<45,48,49,48>>, <<48,49,49>>, <<48,48>>, <<45,48>>, <<48,48,49,50>>, <<48,48,48,48,48,48,48,49,48>>, <<45,48,57>>, <<48,49>>,
+               \* beyond 64 bits: still numbers of the grammar, beyond every length
+               <<57,50,50,51,51,55,50,48,51,54,56,53,52,55,55,53,56,48,56>>, <<45,57,50,50,51,51,55,50,48,51,54,56,53,52,55,55,53,56,48,57>>, <<57,57,57,57,57,57,57,57,57,57,57,57,57,57,57,57,57,57,57,57>>, <<45,57,57,57,57,57,57,57,57,57,57,57,57,57,57,57,57,57,57,57,57>>, <<49,56,52,52,54,55,52,52,48,55,51,55,48,57,53,53,49,54,49,54>> >>
       spell(ts) == [expr |-> Render(ts), adm |-> Admissible(ts, doc12), doc |-> doc12]
       spelled == IF inst.n # 0 \/ inst.a # 0 THEN {}
                  ELSE UNION { { spell(<<Id(<<120>>), LB, IntT(sp[i]), RB>>), spell(<<Id(<<120>>), LB, IntT(sp[i]), Colon, RB>>),
